@@ -477,11 +477,11 @@ impl Property for C15 {
     }
     fn plan(&self, tier: Tier) -> Vec<Segment> {
         vec![
-            Segment::random("bit vectors, rank/select structures", tier.pick(2_400, 40_000), &[0], 16, 200),
-            Segment::random("bit-field vectors", tier.pick(600, 10_000), &[1], 16, 60),
-            Segment::random("Elias-Fano variants", tier.pick(1_000, 16_000), &[2], 16, 400),
-            Segment::random("rear-coded lists", tier.pick(400, 6_000), &[3], 16, 60),
-            Segment::random("functions and filters", tier.pick(600, 10_000), &[4], 16, 60),
+            Segment::random("bit vectors, rank/select structures", tier.pick(7_200, 240_000), &[0], 16, 200),
+            Segment::random("bit-field vectors", tier.pick(1_800, 60_000), &[1], 16, 60),
+            Segment::random("Elias-Fano variants", tier.pick(3_000, 96_000), &[2], 16, 400),
+            Segment::random("rear-coded lists", tier.pick(1_200, 36_000), &[3], 16, 60),
+            Segment::random("functions and filters", tier.pick(1_800, 60_000), &[4], 16, 60),
         ]
     }
     fn rule(&self) -> &'static str {
